@@ -253,13 +253,15 @@ pub fn oracle_c04(out: &RunOut) -> Vec<Violation> {
                     vs.push(Violation::new(
                         "two-live-children",
                         "",
-                        format!("job {job}: child {child} spawned at t={} (#{}) while child {prev} was spawned and neither reaped nor dropped", r.t, r.seq),
+                        format!("job {job}: child {child} spawned at t={} (#{}) while child {prev} had been spawned and its exit status never collected", r.t, r.seq),
                     ));
                 }
                 live.push((*job, *child));
             }
             Ev::Reaped { child, .. } => live.retain(|(_, c)| c != child),
-            Ev::Dropped { child, .. } => live.retain(|(_, c)| c != child),
+            // a handle dropped after its status was collected is gone; one dropped *unreaped* was merely
+            // killed by kill-on-drop - its status was never collected, so no new process may follow it
+            Ev::Dropped { child, reaped: true, .. } => live.retain(|(_, c)| c != child),
             _ => {}
         }
     }
@@ -278,12 +280,21 @@ impl Check for C04 {
     }
     fn budget(&self, tier: Tier) -> u64 {
         match tier {
-            Tier::Quick => 200_000,
-            Tier::Thorough => 20_000_000,
+            Tier::Quick => crate::model::exhaustive_count(3) + 200_000,
+            Tier::Thorough => crate::model::exhaustive_count(4) + 30_000_000,
         }
     }
-    fn generate(&self, rng: &mut Rng, idx: u64, _tier: Tier) -> Option<E1Scn> {
-        // strata: even indices fault-free, odd indices fault-injecting
+    fn generate(&self, rng: &mut Rng, idx: u64, tier: Tier) -> Option<E1Scn> {
+        // first slice: bounded-exhaustive control sequences (length <= 3 quick, <= 4 thorough) x send style x
+        // child class x spawn-failure plan, each under its own sampled schedule
+        let (len, n) = match tier {
+            Tier::Quick => (3, crate::model::exhaustive_count(3)),
+            Tier::Thorough => (4, crate::model::exhaustive_count(4)),
+        };
+        if idx < n {
+            return crate::model::exhaustive_scn(idx, len);
+        }
+        // then random: even indices fault-free, odd indices fault-injecting
         let faults = idx % 2 == 1;
         Some(e1::gen_random(rng, &GenCfg { faults, max_ops: if idx % 5 == 0 { 40 } else { 12 }, max_senders: 3, allow_drop: true }))
     }
